@@ -332,8 +332,8 @@ func c08IndexClass(h *scen.History, cfg c08Config) string {
 }
 
 var (
-	c08NeedsGit   bool
-	c08GitBudget  = 4
+	c08NeedsGit  bool
+	c08GitBudget = 4
 )
 
 // c08OnGit re-runs a violating configuration (and the cache-less reference) on
